@@ -306,7 +306,7 @@ Section R.
   Proof.
     unfold settle_pending, pending_of. destruct (c_fix_moveout C) eqn:Hf; [|reflexivity].
     destruct (pend r) as [[c p]|] eqn:Ep; [|cbn [fst]; now rewrite Ep].
-    destruct (is_moved_to (k_mask e) && N.eqb (k_cookie e) c); [reflexivity|].
+    destruct (is_moved_to (k_mask e) && N.eqb (k_cookie e) c && amem N.eqb (k_wd e) (pfw r)); [reflexivity|].
     rewrite forget_tree_pend. reflexivity.
   Qed.
 
